@@ -116,6 +116,54 @@ def _run_one(args):
     return r
 
 
+def _child(job, conn):
+    try:
+        conn.send(_run_one(job))
+    finally:
+        conn.close()
+
+
+def _run_jobs(jobs, procs):
+    """one process per shard, at most `procs` at a time; a shard that dies (killed, out of memory) or overruns its budget by far is
+    reported as an error of that shard instead of blocking the whole check (a multiprocessing.Pool waits forever for a lost task)"""
+    ctxm = multiprocessing.get_context('fork')
+    pending, running, results = list(jobs), [], []
+
+    def lost(job, why, wall):
+        return dict(item=job[2], shard=job[6], evaluations=0, keys=[], samples=[], violations=[], exhausted=False, notes=[],
+                    suppressed={}, error=why, wall_s=wall)
+    while pending or running:
+        while pending and len(running) < procs:
+            job = pending.pop(0)
+            parent, child = ctxm.Pipe(duplex=False)
+            p = ctxm.Process(target=_child, args=(job, child))
+            p.start()
+            child.close()
+            running.append((p, parent, job, time.time()))
+        still = []
+        for p, conn, job, t0 in running:
+            if conn.poll(0):
+                try:
+                    results.append(conn.recv())
+                except (EOFError, OSError):
+                    results.append(lost(job, 'shard process ended without a result (exit code %s)' % p.exitcode, time.time() - t0))
+                p.join(10)
+                continue
+            if not p.is_alive():
+                results.append(lost(job, 'shard process died (exit code %s)' % p.exitcode, time.time() - t0))
+                continue
+            if time.time() - t0 > job[5] * 2 + 180:
+                p.kill()
+                p.join(10)
+                results.append(lost(job, 'shard overran twice its budget of %.0f s and was stopped' % job[5], time.time() - t0))
+                continue
+            still.append((p, conn, job, t0))
+        running = still
+        if running:
+            time.sleep(0.05)
+    return results
+
+
 def run_module(modname, prop, tier, seed, budget_s, only=None, procs=16):
     """Run all items of a bounded module, sharded over processes.  Returns (items, violations, errors)."""
     importlib.import_module(modname)
@@ -131,9 +179,7 @@ def run_module(modname, prop, tier, seed, budget_s, only=None, procs=16):
         b = budget_s * (scale if total_shards > procs else 1.0)
         for s in range(i['shards']):
             jobs.append((modname, prop, i['name'], tier, seed, b, s, i['shards']))
-    ctxm = multiprocessing.get_context('fork')
-    with ctxm.Pool(min(procs, len(jobs))) as pool:
-        results = pool.map(_run_one, jobs, chunksize=1)
+    results = _run_jobs(jobs, min(procs, len(jobs)))
     out, violations, errors = [], [], []
     for i in items:
         rs = [r for r in results if r['item'] == i['name']]
